@@ -186,6 +186,8 @@ class YosysStructuralTranslatorL4(
           ret += _subcomp_conn_gen( d, _cpid, _pid, cwid, _wid, _idx, n_dim[1:] )
         return ret
 
+    s.check_decl( c_id, f"Note: {c_id} is a sub-component of {m}" )
+
     wire_template = "logic {packed_type: <8} {id_}{array_dim_str};"
     _port_decls, _wire_decls, _connections = [], [], []
 
